@@ -43,8 +43,12 @@ type Scenario struct {
 	Reused bool   `json:"reused,omitempty"` // the fault hits an upstream connection that already served a warm-up exchange
 	Method string `json:"m,omitempty"`      // method of request 1 (GET | POST)
 	Proto  string `json:"p,omitempty"`      // client protocol: 1.1 | 1.0ka
-	Pos    int    `json:"pos,omitempty"`    // corruption position
-	Repl   int    `json:"repl,omitempty"`   // replacement byte
+	M2     string `json:"m2,omitempty"`     // method of the second request ("" = GET | POST | HEAD)
+	Pipe   bool   `json:"pipe,omitempty"`   // the second request is already sent (same write) when the fault happens
+	Two    bool   `json:"two,omitempty"`    // corruption of the two bytes at Pos, Pos+1 (Repl, Repl2)
+	Repl2  int    `json:"repl2,omitempty"`
+	Pos    int    `json:"pos,omitempty"`  // corruption position
+	Repl   int    `json:"repl,omitempty"` // replacement byte
 	TCP    bool   `json:"tcp,omitempty"`
 }
 
@@ -78,9 +82,25 @@ func scripts(tier string) []script {
 			mkScript("cl_5200", fmt.Sprintf("HTTP/1.1 200 OK\r\nContent-Length: %d\r\n\r\n", len(big)), big, big, false, false, 200),
 			mkScript("chunked_5200", "HTTP/1.1 200 OK\r\nTransfer-Encoding: chunked\r\n\r\n", fmt.Sprintf("%x\r\n%s\r\n%x\r\n%s\r\n0\r\n\r\n", 4100, big[:4100], 1100, big[4100:]), big, false, false, 200),
 			mkScript("interim_cl", "HTTP/1.1 103 Early Hints\r\nLink: </a>\r\n\r\nHTTP/1.1 200 OK\r\nContent-Length: 5\r\n\r\n", "hello", "hello", false, false, 200),
+			mkScript("two_interim_chunked", "HTTP/1.1 100 Continue\r\n\r\nHTTP/1.1 103 Early Hints\r\nLink: </a>\r\n\r\nHTTP/1.1 200 OK\r\nTransfer-Encoding: chunked\r\n\r\n", "3\r\nabc\r\n4\r\ndefg\r\n0\r\n\r\n", "abcdefg", false, false, 200),
+			mkScript("chunked_trailer", "HTTP/1.1 200 OK\r\nTransfer-Encoding: chunked\r\nTrailer: X-Sum, X-Other\r\n\r\n", "5\r\nhello\r\n7\r\n, world\r\n0\r\nX-Sum: 12\r\nX-Other: v\r\n\r\n", "hello, world", false, false, 200),
+			mkScript("chunked_ext", "HTTP/1.1 200 OK\r\nTransfer-Encoding: chunked\r\n\r\n", "5;a=b\r\nhello\r\n7;q=\"x\"\r\n, world\r\n0;last\r\n\r\n", "hello, world", false, false, 200),
+			manyChunks(),
 		)
 	}
 	return out
+}
+
+// manyChunks: a chunked body of 60 chunks of sizes 1..60 (1830 bytes).
+func manyChunks() script {
+	var wire, body strings.Builder
+	for i := 1; i <= 60; i++ {
+		c := strings.Repeat(string(rune('a'+i%26)), i)
+		fmt.Fprintf(&wire, "%x\r\n%s\r\n", i, c)
+		body.WriteString(c)
+	}
+	wire.WriteString("0\r\n\r\n")
+	return mkScript("chunked_60_chunks", "HTTP/1.1 200 OK\r\nTransfer-Encoding: chunked\r\n\r\n", wire.String(), body.String(), false, false, 200)
 }
 
 type corpusEntry struct {
@@ -183,16 +203,26 @@ func scenarios(tier string) ([]Scenario, map[string]int) {
 	if tier == "thorough" {
 		protos = []string{"1.1", "1.0ka"}
 	}
-	// 1. every truncation offset of every response script x {fresh, reused upstream connection} x {GET, POST}
+	// 1. every truncation offset of every response script x client protocol x {fresh, reused upstream
+	// connection} x {GET, POST}; thorough: x second request {GET, POST with body, HEAD} x {second request sent
+	// after response 1, already sent (pipelined) when the fault happens}
+	m2s, pipes := []string{""}, []bool{false}
+	if tier == "thorough" {
+		m2s, pipes = []string{"", "POST", "HEAD"}, []bool{false, true}
+	}
 	for _, sc := range scripts(tier) {
 		for _, pr := range protos {
+			if len(sc.wire) > 1000 && pr != "1.1" {
+				continue // the long scripts: HTTP/1.1 clients only
+			}
 			for _, reused := range []bool{false, true} {
 				for _, m := range []string{"GET", "POST"} {
-					if len(sc.wire) > 1000 && (reused || m == "POST" || pr != "1.1") {
-						continue // the 5200-byte scripts: fresh connection, GET, HTTP/1.1 only
-					}
-					for k := 0; k <= len(sc.wire); k++ {
-						add(Scenario{Kind: "truncate", Script: sc.name, K: k, Reused: reused, Method: m, Proto: pr})
+					for _, m2 := range m2s {
+						for _, pipe := range pipes {
+							for k := 0; k <= len(sc.wire); k++ {
+								add(Scenario{Kind: "truncate", Script: sc.name, K: k, Reused: reused, Method: m, Proto: pr, M2: m2, Pipe: pipe})
+							}
+						}
 					}
 				}
 			}
@@ -201,8 +231,12 @@ func scenarios(tier string) ([]Scenario, map[string]int) {
 	// 2. dial outcomes
 	for _, pr := range protos {
 		for _, m := range []string{"GET", "POST"} {
-			add(Scenario{Kind: "dial", Dial: "refused", Method: m, Proto: pr, Script: "cl", K: -1})
-			add(Scenario{Kind: "dial", Dial: "accept_close", Method: m, Proto: pr, Script: "cl", K: -1})
+			for _, m2 := range m2s {
+				for _, pipe := range pipes {
+					add(Scenario{Kind: "dial", Dial: "refused", Method: m, Proto: pr, Script: "cl", K: -1, M2: m2, Pipe: pipe})
+					add(Scenario{Kind: "dial", Dial: "accept_close", Method: m, Proto: pr, Script: "cl", K: -1, M2: m2, Pipe: pipe})
+				}
+			}
 		}
 	}
 	// 3. non-HTTP origin answers: every prefix (k >= 1; k = 0 is truncation offset 0 above)
@@ -218,7 +252,14 @@ func scenarios(tier string) ([]Scenario, map[string]int) {
 				if reused && (tier != "thorough" || c.cuts != nil) {
 					continue
 				}
-				add(Scenario{Kind: "garbage", Script: c.name, K: k, Reused: reused, Method: "GET", Proto: "1.1"})
+				for _, m2 := range m2s {
+					for _, pipe := range pipes {
+						if c.cuts != nil && (m2 != "" || pipe) {
+							continue
+						}
+						add(Scenario{Kind: "garbage", Script: c.name, K: k, Reused: reused, Method: "GET", Proto: "1.1", M2: m2, Pipe: pipe})
+					}
+				}
 			}
 		}
 	}
@@ -255,12 +296,29 @@ func scenarios(tier string) ([]Scenario, map[string]int) {
 	}
 	// 6. client byte streams against a proxy with MITM enabled
 	mitmScenarios(tier, add)
+	// 5b (thorough). every two-byte corruption window of the same requests: both bytes replaced by every pair
+	// over {NUL, LF, CR, SP, 0xff}
+	if tier == "thorough" {
+		pair := []int{0x00, '\n', '\r', ' ', 0xff}
+		for _, b := range corruptionBases() {
+			for pos := 0; pos+1 < len(b.bytes); pos++ {
+				for _, r1 := range pair {
+					for _, r2 := range pair {
+						add(Scenario{Kind: "client", Script: "corrupt_" + b.name, K: -1, Pos: pos, Repl: r1, Two: true, Repl2: r2})
+					}
+				}
+			}
+		}
+	}
 	for i := range list {
 		s := &list[i]
 		if len(list[i].Script) > 0 && (s.Script == "oversized_header" || s.Script == "huge_method" || s.Script == "long_uri" || s.Script == "long_header") {
 			continue
 		}
 		s.TCP = i%9 == 0
+		if tier == "thorough" {
+			s.TCP = i%97 == 0 // sparser: loopback sockets linger in TIME_WAIT and ephemeral ports are finite
+		}
 	}
 	return list, fam
 }
@@ -387,6 +445,9 @@ func runScenario(s *Scenario, kind string, quiet time.Duration) *runOut {
 		if perr != nil {
 			return h1harness.Action{Close: true}
 		}
+		if req.Method == "HEAD" && strings.HasSuffix(req.Target, "/second") {
+			return h1harness.Action{Write: [][]byte{secondResp[:len(secondResp)-len(marker)]}}
+		}
 		if req.Method != "GET" && req.Method != "POST" {
 			// e.g. left-over bytes of an earlier request body glued in front of the method
 			return h1harness.Action{Write: [][]byte{[]byte("HTTP/1.1 400 Bad Request\r\nContent-Length: 10\r\nX-Origin-Saw-Method: " + fmt.Sprintf("%q", req.Method) + "\r\n\r\nbad method")}}
@@ -486,7 +547,15 @@ func runScenario(s *Scenario, kind string, quiet time.Duration) *runOut {
 	}
 	rawStart := len(cl.Raw())
 	// phase A: request 1
-	if err := cl.Send(request(s.Method, "/first", s.Proto)); err != nil {
+	m2 := s.M2
+	if m2 == "" {
+		m2 = "GET"
+	}
+	req1 := request(s.Method, "/first", s.Proto)
+	if s.Pipe {
+		req1 = append(req1, request(m2, "/second", s.Proto)...)
+	}
+	if err := cl.Send(req1); err != nil {
 		report("client_write_failed", err.Error())
 		return out
 	}
@@ -500,16 +569,16 @@ func runScenario(s *Scenario, kind string, quiet time.Duration) *runOut {
 		closedAfter1 = true // a close-delimited body was read up to EOF
 	}
 	// phase B: request 2 on the same connection (unless the proxy has closed it), then half-close and read to EOF
-	sent2 := false
-	if !closedAfter1 {
-		if err := cl.Send(request("GET", "/second", s.Proto)); err == nil {
+	sent2 := s.Pipe
+	if !closedAfter1 && !s.Pipe {
+		if err := cl.Send(request(m2, "/second", s.Proto)); err == nil {
 			sent2 = true
 		}
 	}
 	cl.CloseWrite()
 	_, endB := cl.Drain()
 	raw := cl.Raw()[rawStart:]
-	resps, rest := h1harness.ParseStream(raw, []string{s.Method, "GET"}, true)
+	resps, rest := h1harness.ParseStream(raw, []string{s.Method, m2}, true)
 	out.outcome = fmt.Sprintf("A=%s/%d/%s sent2=%v B=%s n=%d rest=%d", short(endA), r1.Status, r1.Framing, sent2, short(endB), len(resps), len(rest))
 
 	if endA == h1harness.EndHang || endB == h1harness.EndHang {
@@ -618,7 +687,7 @@ func runScenario(s *Scenario, kind string, quiet time.Duration) *runOut {
 	}
 	if complete && !resp1ClosesConn {
 		// the connection stayed open after a complete response 1 (a 502 in particular): request 2 must be served
-		ok := len(resps) >= 2 && resps[1].HeadErr == "" && resps[1].Status == 200 && resps[1].Header.Get("X-Second") == "yes" && string(resps[1].Body) == marker && resps[1].BodyEnd == h1harness.EndOK
+		ok := len(resps) >= 2 && resps[1].HeadErr == "" && resps[1].Status == 200 && resps[1].Header.Get("X-Second") == "yes" && (string(resps[1].Body) == marker || (m2 == "HEAD" && len(resps[1].Body) == 0)) && resps[1].BodyEnd == h1harness.EndOK
 		if !ok {
 			sym := "second_request_not_served"
 			if is502 {
@@ -674,6 +743,9 @@ func runClientStream(s *Scenario, kind string, quiet time.Duration) *runOut {
 		base := lookupCorpus(corruptionBases(), strings.TrimPrefix(s.Script, "corrupt_"))
 		stream = append([]byte(nil), base...)
 		stream[s.Pos] = byte(s.Repl)
+		if s.Two {
+			stream[s.Pos+1] = byte(s.Repl2)
+		}
 	}
 	class := "client_stream"
 	report := func(sym, detail string) {
